@@ -35,6 +35,8 @@ type HistSpec struct {
 	BadImage string `json:"bad_image,omitempty"`
 	// GapOnly: run only the "delete any replica file, then default / TXID / timestamp restore" stream
 	GapOnly bool `json:"gap_only,omitempty"`
+	// Legacy > 0: a v0.3.x-layout replica (1: one segment per WAL index; 2: split segments + a second snapshot)
+	Legacy int `json:"legacy,omitempty"`
 }
 
 type replicaEnv struct {
